@@ -310,6 +310,12 @@ func (f *Formatter) formatNode(n *html.Node, buf *strings.Builder, depth int) {
 		buf.WriteString("<!--")
 		buf.WriteString(n.Data)
 		buf.WriteString("-->\n")
+
+	case html.DoctypeNode:
+		// a doctype that is not the very first thing of the document (a comment precedes it)
+		buf.WriteString("<!DOCTYPE ")
+		buf.WriteString(n.Data)
+		buf.WriteString(">\n")
 	}
 }
 
